@@ -26,7 +26,9 @@ def handle (u : Unit) (line : String) : Unit × String :=
     let o2 := match r2.1 with
       | .kept 0 | .discarded | .fresh => "empty"
       | o => outStr o
-    (u, s!"{outStr r1.1} | then {o2}")
+    -- a stored vector without elements: kept-empty, created and discarded are indistinguishable from outside
+    let o1 := if n == 0 then (match r1.1 with | .kept 0 | .discarded | .fresh => "empty" | o => outStr o) else outStr r1.1
+    (u, s!"{o1} | then {o2}")
   | ["impc", f, ec, er, ver, n] =>
     let n := n.toNat?.getD 0
     let v := ver.toNat?.getD 0
